@@ -5,12 +5,20 @@ use crate::rng::Rng;
 use rcgen::*;
 use std::net::{IpAddr, Ipv4Addr, Ipv6Addr};
 
-pub const CUSTOM_ATTR_OIDS: [&[u64]; 5] = [
+pub const CUSTOM_ATTR_OIDS: [&[u64]; 11] = [
 	&[0, 9, 2342, 19200300, 100, 1, 25], // domainComponent
 	&[1, 2, 840, 113549, 1, 9, 1],       // emailAddress
 	&[2, 5, 4, 5],                       // serialNumber
 	&[2, 5, 4, 3, 1],
 	&[1, 3, 6, 1, 4, 1, 311, 60, 2, 1, 3],
+	// under a first component of 2 the second may be 40 or more (first sub-identifier >= 120,
+	// more than one octet from 48 on); components up to the ends of u64
+	&[2, 999, 1],
+	&[2, 40, 7],
+	&[2, 47],
+	&[2, 48, 0],
+	&[1, 39, 9223372036854775808],
+	&[2, 18446744073709551535, 18446744073709551615],
 ];
 
 pub const CUSTOM_EXT_OIDS: [&[u64]; 5] = [
@@ -196,7 +204,7 @@ pub fn gen_san(rng: &mut Rng) -> San {
 		3 => San::Uri(format!("https://{}", ascii_text(rng, 60))),
 		4 => San::Ip(gen_ip(rng)),
 		_ => San::Other(
-			rng.pick(&[&[1u64, 3, 6, 1, 4, 1, 311, 20, 2, 3][..], &[1, 2, 3, 4], &[2, 5, 5, 5]]).to_vec(),
+			rng.pick(&[&[1u64, 3, 6, 1, 4, 1, 311, 20, 2, 3][..], &[1, 2, 3, 4], &[2, 5, 5, 5], &[2, 999, 1], &[2, 40], &[2, 50, 9223372036854775808]]).to_vec(),
 			if rng.chance(1, 3) { "upn@exämple".into() } else { ascii_text(rng, 40) },
 		),
 	}
@@ -242,7 +250,7 @@ pub fn gen_eku(rng: &mut Rng) -> Vec<ExtendedKeyUsagePurpose> {
 			4 => EmailProtection,
 			5 => TimeStamping,
 			6 => OcspSigning,
-			_ => Other(rng.pick(&[&[1u64, 3, 6, 1, 5, 5, 7, 3, 17][..], &[1, 2, 3], &[2, 16, 840, 1, 113730, 4, 1]]).to_vec()),
+			_ => Other(rng.pick(&[&[1u64, 3, 6, 1, 5, 5, 7, 3, 17][..], &[1, 2, 3], &[2, 16, 840, 1, 113730, 4, 1], &[2, 999, 1], &[2, 41], &[2, 5, 29, 37, 9223372036854775808]]).to_vec()),
 		})
 		.collect()
 }
